@@ -60,6 +60,14 @@ theorem encodings_agree : dispatch "pem" (some "CERTIFICATE") false = .cert ∧ 
 theorem fails_closed : dispatch "pem" none true = .fail ∧ dispatch "pem" (some "PRIVATE KEY") true = .fail
     ∧ dispatch "base64" none false = .fail ∧ dispatch "xml" (some "CERTIFICATE") true = .fail := by decide
 
+/-- **what follows the first PEM block plays no part**: a second certificate, a CRL or anything else after it changes neither
+    what the input is linted as nor which bytes are linted -/
+theorem later_blocks_ignored (b : String × List Nat) (rest rest' : List (String × List Nat)) :
+    dispatchBlocks (b :: rest) = dispatchBlocks (b :: rest') := rfl
+
+theorem first_block_decides (t : String) (der : List Nat) (rest : List (String × List Nat)) :
+    dispatchBlocks ((t, der) :: rest) = (dispatch "pem" (some t) false, der) := rfl
+
 /-- per-file override: the suffix decides, the second file never inherits the first file's format -/
 theorem fileFormat_suffix (flag : String) : fileFormat flag "a.der" = "der" ∧ fileFormat flag "b.pem" = "pem" := by
   constructor <;> rfl
